@@ -131,7 +131,7 @@ def fragment_roundtrip_check(res, rnd, q):
     for (x, s_) in diffs[:3]:
         res.violation("the printed text of an operator-core expression does not lex to the canonical spelling of its tree",
                       {"kind": "c01-fragment", "entry": "ParseExpr", "input_hex": hexs(x), "sql": s_.decode(errors="replace")[:300]})
-    res.obligation("hypotheses of C01_fragment_roundtrip hold on %d enumerated operator trees (tree canonical; lex(SQL(tree)) == canonical spelling): %d checked, %d outside the operator core"
+    res.obligation("hypotheses of C01_fragment_roundtrip hold on %d enumerated operator trees (tree canonical; lex(SQL(tree)) == canonical spelling): %d checked, %d outside the expression model"
                    % (len(pairs), cnt.get("OK", 0), len(pairs) - cnt.get("OK", 0) - cnt.get("DIFF", 0)), not diffs and cnt.get("OK", 0) > 0, str(diffs[:2]))
     res.extra["fragment_roundtrip"] = {"inputs": len(xs), "with_sql": len(pairs), "verdicts": dict(cnt)}
     res.add_cases(len(pairs), cnt.get("OK", 0), [])
